@@ -102,9 +102,9 @@ def layout_cases(draw, tier):
     small = draw(st.booleans())
     mp = 3 if small else None          # <= 3 ranks: schedules can be enumerated
     if draw(st.booleans()):
-        cfg = draw(mg.swapper_config(tier, max_extent=5, max_procs=mp))
+        cfg = draw(mg.swapper_config(tier, max_extent=5, max_procs=mp, allow_empty=True))
     else:
-        cfg = draw(mg.handler_config(tier, min_dims=3, max_extent=5, max_procs=mp))
+        cfg = draw(mg.handler_config(tier, min_dims=3, max_extent=5, max_procs=mp, allow_empty=True))
     names = [n for n, _ in mg.all_layouts(cfg)]
     steps = draw(st.lists(st.tuples(st.sampled_from(names), st.booleans()), min_size=1, max_size=5))
     return {"cfg": cfg, "start": cfg.get("start") or draw(st.sampled_from(names)), "steps": [list(s) for s in steps],
